@@ -471,6 +471,30 @@ def g_round(ctx, rng, i):
             f"{nm}: after is_tangent/dual/polar queries center, radius read back as {_cart(q_.center)}, {q_.radius}; constructed with {cc}, {r}")
         on = g.Point(*(cc + r * np.eye(len(cc))[0]))
         _rd(ctx, bool(q_.contains(on)), [cc, r], f"{nm}: after is_tangent/dual/polar queries the point centre + r e1 is no longer on it")
+    # the same spheres / circles in other scales of the matrix: the constructor keyword normalize_matrix, images under a uniform scaling
+    # (the class is kept, the radius is multiplied), translated images
+    for nm, ctor, cc in (("Sphere", g.Sphere, c3), ("Circle", g.Circle, c2)):
+        try:
+            qn = ctor(g.Point(*cc), r, normalize_matrix=True)
+            _rd(ctx, abs(qn.radius - r) <= 1e-9 * max(1, r) and np.allclose(_cart(qn.center), cc, atol=1e-8), [cc, r],
+                f"{nm}(c, r, normalize_matrix=True): radius {qn.radius}, center {_cart(qn.center)}; constructed with {r}, {cc}")
+            if nm == "Sphere":
+                _rd(ctx, abs(qn.volume - 4 / 3 * math.pi * r ** 3) <= 1e-9 * max(1, r ** 3) and abs(qn.area - 4 * math.pi * r ** 2) <= 1e-9 * max(1, r ** 2), [cc, r],
+                    f"Sphere(c, r, normalize_matrix=True): volume {qn.volume}, area {qn.area}")
+        except Exception as e:  # noqa: BLE001
+            _rd(ctx, False, [cc, r], f"{nm}(c, r, normalize_matrix=True) / its measures raised {type(e).__name__}: {str(e)[:80]}")
+        fac = float(gen.pick(rng, [2.0, 0.5, 3.0]))
+        try:
+            q0 = ctor(g.Point(*cc), r)
+            qs = g.scaling(*([fac] * len(cc))) * q0
+            if type(qs) is type(q0):
+                _rd(ctx, abs(qs.radius - fac * r) <= 1e-8 * max(1, fac * r) and np.allclose(_cart(qs.center), fac * np.asarray(cc), atol=1e-7), [cc, r, fac],
+                    f"scaling({fac}) * {nm}(c, {r}): radius {qs.radius} (expected {fac * r}), center {_cart(qs.center)} (expected {fac * np.asarray(cc)})")
+            qt = q0 + g.Point(*([1.0, -2.0, 0.5][: len(cc)]))
+            if type(qt) is type(q0):
+                _rd(ctx, abs(qt.radius - r) <= 1e-8 * max(1, r), [cc, r], f"{nm} + point: radius {qt.radius}, expected {r}")
+        except Exception as e:  # noqa: BLE001
+            _rd(ctx, False, [cc, r, fac], f"measures of a scaled / translated {nm} raised {type(e).__name__}: {str(e)[:80]}")
     s2 = g.Sphere(g.Point(*c2), r)  # the 1-sphere
     _rd(ctx, abs(s2.volume - math.pi * r ** 2) <= 1e-9 * max(1, r * r) and abs(s2.area - 2 * math.pi * r) <= 1e-9 * max(1, r), [c2, r], f"2D sphere volume/area = {s2.volume}/{s2.area}")
     # translation of quadrics by a point keeps them the locus of the moved centre
